@@ -148,7 +148,7 @@ pub mod shim {
     pub broadcast proof fn axiom_from_reflexive_u8()
         ensures #[trigger] <u8 as vstd::std_specs::convert::FromSpec<u8>>::obeys_from_spec(),
             forall|v: u8| #[trigger] <u8 as vstd::std_specs::convert::FromSpec<u8>>::from_spec(v) == v {}
-    pub broadcast group group_be_subrange { lemma_be16_subrange, lemma_be32_subrange, lemma_subrange_full, axiom_from_reflexive_u8, axiom_be_bytes16_len }
+    pub broadcast group group_be_subrange { lemma_be16_subrange, lemma_be32_subrange, lemma_subrange_full, axiom_from_reflexive_u8, axiom_be_bytes16_len, axiom_str_bytes_ascii }
     pub open spec fn zeros(n: nat) -> Seq<u8> { Seq::new(n, |i: int| 0u8) }
 
     // ---------------------------------------------------------------- addresses
@@ -215,6 +215,55 @@ pub mod shim {
 
     pub assume_specification<T, const N: usize> [ <Vec<T> as From<[T; N]>>::from ] (a: [T; N]) -> (r: Vec<T>)
         ensures r@ == a@;
+
+    // ---------------------------------------------------------------- rule R8: format!/Display
+    /// decimal rendering of an unsigned integer (Display for usize/u16/u32)
+    pub open spec fn dec(n: nat) -> Seq<u8>
+        decreases n
+    {
+        if n < 10 { seq![(48 + n) as u8] } else { dec(n / 10).push((48 + n % 10) as u8) }
+    }
+    /// the UTF-8 bytes of a string (uninterpreted); an ASCII string has one byte per character (trusted)
+    pub uninterp spec fn str_bytes(s: &str) -> Seq<u8>;
+    #[verifier::external_body]
+    pub broadcast proof fn axiom_str_bytes_ascii(s: &str)
+        requires s.is_ascii()
+        ensures (#[trigger] str_bytes(s)).len() == s@.len() {}
+    pub uninterp spec fn string_bytes(s: String) -> Seq<u8>;
+    /// Display of an address (uninterpreted; assumed free of CR/LF by the contracts that need it)
+    pub uninterp spec fn display_ip(ip: IpAddr) -> Seq<u8>;
+    pub trait FmtDisp { spec fn disp(&self) -> Seq<u8>; }
+    impl FmtDisp for usize { open spec fn disp(&self) -> Seq<u8> { dec(*self as nat) } }
+    impl FmtDisp for u16 { open spec fn disp(&self) -> Seq<u8> { dec(*self as nat) } }
+    impl FmtDisp for u32 { open spec fn disp(&self) -> Seq<u8> { dec(*self as nat) } }
+    impl FmtDisp for u8 { open spec fn disp(&self) -> Seq<u8> { dec(*self as nat) } }
+    impl FmtDisp for &str { open spec fn disp(&self) -> Seq<u8> { str_bytes(*self) } }
+    impl FmtDisp for String { open spec fn disp(&self) -> Seq<u8> { string_bytes(*self) } }
+    impl FmtDisp for IpAddr { open spec fn disp(&self) -> Seq<u8> { display_ip(*self) } }
+    impl FmtDisp for FmtString { open spec fn disp(&self) -> Seq<u8> { self.bytes@ } }
+    /// the String produced by a rewritten format! call
+    pub struct FmtString { pub bytes: Vec<u8> }
+    impl FmtArg for FmtString { open spec fn fmt_ok(&self) -> bool { true } }
+    impl FmtString {
+        pub fn into_bytes(self) -> (r: Vec<u8>) ensures r@ == self.bytes@ { self.bytes }
+        #[verifier::external_body] pub fn as_bytes(&self) -> (r: &[u8]) ensures r@ == self.bytes@ { unimplemented!() }
+        pub fn len(&self) -> (r: usize) ensures r == self.bytes@.len() { self.bytes.len() }
+    }
+    /// a literal template piece as a byte slice
+    #[verifier::external_body]
+    pub fn bs<const N: usize>(a: &[u8; N]) -> (r: &[u8]) ensures r@ == a@ { a }
+    #[verifier::external_body]
+    pub fn fmt_cat1<A: FmtDisp + ?Sized>(p0: &[u8], a: &A, p1: &[u8]) -> (r: FmtString)
+        ensures r.bytes@ == p0@ + a.disp() + p1@ { unimplemented!() }
+    #[verifier::external_body]
+    pub fn fmt_cat2<A: FmtDisp + ?Sized, B: FmtDisp + ?Sized>(p0: &[u8], a: &A, p1: &[u8], b: &B, p2: &[u8]) -> (r: FmtString)
+        ensures r.bytes@ == p0@ + a.disp() + p1@ + b.disp() + p2@ { unimplemented!() }
+    #[verifier::external_body]
+    pub fn fmt_cat3<A: FmtDisp + ?Sized, B: FmtDisp + ?Sized, C: FmtDisp + ?Sized>(p0: &[u8], a: &A, p1: &[u8], b: &B, p2: &[u8], c: &C, p3: &[u8]) -> (r: FmtString)
+        ensures r.bytes@ == p0@ + a.disp() + p1@ + b.disp() + p2@ + c.disp() + p3@ { unimplemented!() }
+    #[verifier::external_body]
+    pub fn fmt_cat4<A: FmtDisp + ?Sized, B: FmtDisp + ?Sized, C: FmtDisp + ?Sized, D: FmtDisp + ?Sized>(p0: &[u8], a: &A, p1: &[u8], b: &B, p2: &[u8], c: &C, p3: &[u8], d: &D, p4: &[u8]) -> (r: FmtString)
+        ensures r.bytes@ == p0@ + a.disp() + p1@ + b.disp() + p2@ + c.disp() + p3@ + d.disp() + p4@ { unimplemented!() }
 
     /// rule R6: `[A, B].concat()`
     #[verifier::external_body]
